@@ -13,10 +13,11 @@ THEOREMS = [P + t for t in (
     "tables_ok", "props_roundtrip_partial", "props_roundtrip_counterexample", "settable_rebuilt",
     "set_get", "set_frame", "unset_get", "unset_identity_rejected", "unset_frame",
     "unset_table_ok_partial", "unset_counterexample", "dict_roundtrip_partial", "image_join_split",
-    "image_type_comma_counterexample")]
+    "image_type_comma_counterexample", "graph_roundtrip_leaf_partial")]
 TRUSTED_BASE = [
     "gen/slivermap.py: AST patterns of the *_sliver_to_graph_properties_dict / *_from_graph_properties_dict family, "
     "SLIVER_PROPERTY_TO_GRAPH, the setters of the sliver classes; dynamic probes for absent-property decoding, None-tolerant setters, enum resolution",
+    "Model/Sliver.lean graph path (addSliver / buildDeep on a node list with relationships; neighbour order abstracted by sorting children): differential only, no theorem",
     "Model/Sliver.lean `concrete` codecs (objects represented by their to_json text, json.dumps/loads of safe strings, ',' join/split): differential only",
     "the C03 codecs (to_json/from_json, JSONData, Tags, Delegations, Gateway) enter the theorems only through the explicit per-field hypothesis `FieldLaw`",
     "CPython json.dumps/json.loads in JSONSliver (string-valued dictionaries)",
@@ -24,7 +25,8 @@ TRUSTED_BASE = [
 ASSUMPTIONS = [
     "identity-encoded properties hold str values, node_map holds strings without characters that json escapes, management_ip is in canonical form",
     "only values whose C03 codec round-trips standalone are used (others are C03's subject and are counted as skipped)",
-    "sibling children have distinct names (they live in a dict keyed by name)",
+    "sibling children have distinct names (they live in a dict keyed by name); node ids are distinct within a tree",
+    "sub-interfaces, for the graph path, are SubInterface-typed children of a DedicatedPort interface (what Interface.add_child_interface creates); arbitrary interface nesting is exercised through the dictionary / JSON forms only",
 ]
 RULE = ("sliver trees (depth <= 4, <= 12 elements) with a random subset of every class's list_properties() set to values from a per-type pool "
         "(adversarial strings, every enum member, codec objects), through props / deep dict / JSONSliver / NetworkX graph; every element kind x "
@@ -570,7 +572,15 @@ def correspondence(ctx, res):
         reqs.append(["dict", wt])
         impl.append(["ok", {"dict": cd, "back": b}])
         meta.append(t)
-    # 3. set / get / unset on real elements
+        # 3. model graph (add_*_sliver + build_deep_*_sliver); children come back in no particular order
+        try:
+            b = sort_tree(observe(path_graph(t), wire))
+        except Exception as e:
+            b = ["err", err_kind(e)]
+        reqs.append(["graph", wt])
+        impl.append(["ok", {"back": b}])
+        meta.append(t)
+    # 4. set / get / unset on real elements
     for case in load_corpus("elem") + gen_elem_cases(ctx, ctx.sub_rng("corr-elem"), ctx.scale(1, 6)):
         out = run_elem_case(case)
         for kind, gprops, ops, replies in out["streams"]:
@@ -582,7 +592,9 @@ def correspondence(ctx, res):
         res.evaluations += 1
         res.count("op:" + r[0])
         mj = json.loads(m)
-        if r[0] in ("props", "dict"):
+        if r[0] == "graph" and mj[0] == "ok" and isinstance(mj[1].get("back"), dict):
+            mj[1]["back"] = sort_tree(mj[1]["back"])
+        if r[0] in ("props", "dict", "graph"):
             n, d, p = tree_stats(t)
             if d >= 2 or p >= 3:
                 res.nontrivial.add(canon(r))
@@ -599,6 +611,12 @@ def correspondence(ctx, res):
     if reqs:
         res.sample({"request": reqs[3], "impl": impl[3], "model": json.loads(model[3])})
         res.sample({"request": reqs[-1], "impl": impl[-1], "model": json.loads(model[-1])})
+
+
+def sort_tree(t):
+    kids = [sort_tree(c) for c in t["c"]]
+    kids.sort(key=lambda c: (c["k"], canon(c["f"].get("name")), canon(c)))
+    return {"k": t["k"], "id": t["id"], "f": t["f"], "c": kids}
 
 
 def strip_ids(t):
